@@ -32,9 +32,9 @@ func (x *@T1) @M2(d int) int { x.@m1(d); return len(x.@F2) + x.@f2[x.@f1] }
 `,
 		use: `
 v := @Q@N1(argInt(args, 0, 3), argStr(args, 1, "s"))
-emit(fmt.Sprint("struct ", v.@M1(), " ", v.@M2(4), " ", v.@F1, " ", v.@F2))
+emit(sprint("struct ", v.@M1(), " ", v.@M2(4), " ", v.@F1, " ", v.@F2))
 w := @Q@T1{@F1: 7 + @P1}
-emit(fmt.Sprint("struct2 ", w.@M1(), " ", len(w.@F2)))
+emit(sprint("struct2 ", w.@M1(), " ", len(w.@F2)))
 `,
 	})
 
@@ -66,10 +66,10 @@ type @T3 struct {
 `,
 		use: `
 o := @Q@N1(argInt(args, 0, 5))
-emit(fmt.Sprint("embed ", o.@M1(), " ", o.@M1(), " ", o.@F1, " ", o.@T1.@F1, " ", o.@M2()))
+emit(sprint("embed ", o.@M1(), " ", o.@M1(), " ", o.@F1, " ", o.@T1.@F1, " ", o.@M2()))
 u := @T3{&o, 9}
 u.@F1 += @P1
-emit(fmt.Sprint("embed2 ", u.@M1(), " ", u.@F3, " ", u.@T2.@F2, " ", u.@T2.@T1.@F1))
+emit(sprint("embed2 ", u.@M1(), " ", u.@F3, " ", u.@T2.@F2, " ", u.@T2.@T1.@F1))
 `,
 	})
 
@@ -107,11 +107,11 @@ func @N2() @T6      { return @T6{&@T5{@F4: 1}, true} }
 `,
 		use: `
 a := @Q@N1(argInt(args, 0, 11))
-emit(fmt.Sprint("embedalias ", a.@M1(), " ", a.@T2.@F1, " ", a.@F2, " ", a.@F3))
+emit(sprint("embedalias ", a.@M1(), " ", a.@T2.@F1, " ", a.@F2, " ", a.@F3))
 b := @Q@N2()
-emit(fmt.Sprint("embedalias2 ", b.@M2(5), " ", b.@M2(7), " ", b.@F4, " ", b.@T5.@F4, " ", b.@F5))
+emit(sprint("embedalias2 ", b.@M2(5), " ", b.@M2(7), " ", b.@F4, " ", b.@T5.@F4, " ", b.@F5))
 var c @Q@T2 = @Q@T1{@F1: 3}
-emit(fmt.Sprint("embedalias3 ", c.@M1()))
+emit(sprint("embedalias3 ", c.@M1()))
 `,
 	})
 
@@ -169,11 +169,11 @@ m := @Q@N1[string, int]()
 m.@M1("b", 2+@P0)
 m.@M1("a", argInt(args, 0, 1))
 m.@M1("b", 9)
-emit(fmt.Sprint("generic ", m.@M2(), " ", m.@F1["a"], " ", m.@F1["b"]))
-emit(fmt.Sprint("generic2 ", @Q@N2(1, 2, 3+@P1), " ", @Q@N2("x", "y"), " ", @Q@N2[@Q@T2](4, 5)))
+emit(sprint("generic ", m.@M2(), " ", m.@F1["a"], " ", m.@F1["b"]))
+emit(sprint("generic2 ", @Q@N2(1, 2, 3+@P1), " ", @Q@N2("x", "y"), " ", int(@Q@N2[@Q@T2](4, 5))))
 type localZ struct{ n int }
 f := @Q@N3([]localZ{{1}, {2}, {3}, {4}}, func(l localZ) bool { return l.n%2 == @P2%2 })
-emit(fmt.Sprint("generic3 ", len(f), " ", f[0].n))
+emit(sprint("generic3 ", len(f), " ", f[0].n))
 `,
 	})
 
@@ -208,13 +208,13 @@ func @N2(i @I1) string { return i.@m1() + ":" + strconv.Itoa(i.@M1()) }
 		use: `
 for k := 0; k < 3; k++ {
 	i := @Q@N1(argInt(args, 0, 2) + k + @P0)
-	emit(fmt.Sprint("iface ", i.@M1(), " ", @Q@N2(i)))
+	emit(sprint("iface ", i.@M1(), " ", @Q@N2(i)))
 	if t, ok := i.(*@Q@T2); ok {
 		emit("iface ptr " + t.@F2)
 	}
 }
 var sink interface{ @M1() int } = @Q@N1(4)
-emit(fmt.Sprint("iface2 ", sink.@M1()))
+emit(sprint("iface2 ", sink.@M1()))
 `,
 	})
 
@@ -238,9 +238,9 @@ inc := c.@M1
 get := c.@M2 // bound now: copies the receiver
 inc(2)
 inc(@P0)
-emit(fmt.Sprint("methodval ", c.@F1, " ", get(), " ", c.@M2()))
-emit(fmt.Sprint("methodval2 ", @Q@V1(c, 5), " ", @Q@V2(*c, 2, 3), " ", (*@Q@T1).@M1(c, 1), " ", @Q@T1.@M2(*c)))
-emit(fmt.Sprint("methodval3 ", @Q@N1(c)(100)))
+emit(sprint("methodval ", c.@F1, " ", get(), " ", c.@M2()))
+emit(sprint("methodval2 ", @Q@V1(c, 5), " ", @Q@V2(*c, 2, 3), " ", (*@Q@T1).@M1(c, 1), " ", @Q@T1.@M2(*c)))
+emit(sprint("methodval3 ", @Q@N1(c)(100)))
 `,
 	})
 
@@ -278,7 +278,7 @@ var @V1 = func() func(string) string {
 next, mul := @Q@N1(argInt(args, 0, 2))
 next()
 mul(3)
-emit(fmt.Sprint("closure ", next(), " ", @Q@N2(4+@P1%3)))
+emit(sprint("closure ", next(), " ", @Q@N2(4+@P1%3)))
 emit("closure2 " + @Q@V1("a") + @Q@V1("b"))
 `,
 	})
@@ -298,7 +298,7 @@ func @N1(v any) string {
 	case nil:
 		return "nil"
 	case int, int64:
-		return fmt.Sprint("int:", x)
+		return sprint("int:", x)
 	case @T1:
 		return "T1:" + x.@M1()
 	case *@T1:
@@ -307,13 +307,13 @@ func @N1(v any) string {
 	case @T2:
 		return "T2:" + strings.Join(x, "+")
 	case @T3:
-		return fmt.Sprint("T3:", x())
+		return sprint("T3:", x())
 	case @I1:
 		return "I1:" + x.@M1()
 	case error:
 		return "err:" + x.Error()
 	case func(int) int:
-		return fmt.Sprint("fn:", x(2))
+		return sprint("fn:", x(2))
 	default:
 		_ = x
 		return "other"
@@ -333,7 +333,7 @@ for _, v := range vals {
 }
 switch y := vals[3].(type) {
 case @Q@T1:
-	emit(fmt.Sprint("typeswitch local ", y.@F1))
+	emit(sprint("typeswitch local ", y.@F1))
 }
 `,
 	})
@@ -382,11 +382,11 @@ func @N2(s string) int {
 }
 `,
 		use: `
-emit(fmt.Sprint("labels ", @Q@N1(argInt(args, 0, 4)%7, 5), " ", @Q@N2(argStr(args, 1, "abxcd"))))
+emit(sprint("labels ", @Q@N1(argInt(args, 0, 4)%7, 5), " ", @Q@N2(argStr(args, 1, "abxcd"))))
 @L1:
 for i := 0; i < 3; i++ {
 	for {
-		emit(fmt.Sprint("labels loop ", i))
+		emit(sprint("labels loop ", i))
 		continue @L1
 	}
 }
@@ -438,18 +438,18 @@ mine := @T2{@F1: argInt(args, 0, 2), @F2: "conv"}
 mine.@F3.@F5 = []int{1, 2, 3}
 theirs := @Q@T1(mine)
 theirs.@F3.@F4 = true
-emit(fmt.Sprint("conv ", @Q@N1(theirs), " ", @Q@N1(@Q@T1(mine)), " ", @T2(theirs).@F3.@F4))
+emit(sprint("conv ", @Q@N1(theirs), " ", @Q@N1(@Q@T1(mine)), " ", @T2(theirs).@F3.@F4))
 an := @Q@N2()
 t3 := @T3(an)
 back := struct {
 	@F1 int
 	@F2 string
 }(t3)
-emit(fmt.Sprint("conv2 ", t3.@F1, " ", back.@F2, " ", an.@F1+an.@F1))
+emit(sprint("conv2 ", t3.@F1, " ", back.@F2, " ", an.@F1+an.@F1))
 p := &mine
 q := (*@Q@T1)(p)
 q.@F1 = 77
-emit(fmt.Sprint("conv3 ", mine.@F1))
+emit(sprint("conv3 ", mine.@F1))
 `,
 	})
 
@@ -472,15 +472,15 @@ func @N1(p struct{ @F5, @F6 int }) struct{ @F7 int } {
 var @V3 = map[string]struct{ @F8 []int }{"k": {[]int{1, 2}}}
 `,
 		use: `
-emit(fmt.Sprint("anon ", @Q@V1.@F1, " ", len(@Q@V2), " ", @Q@V2[1].@F3.@F4, " ", @Q@V2[0].@F2))
+emit(sprint("anon ", @Q@V1.@F1, " ", len(@Q@V2), " ", @Q@V2[1].@F3.@F4, " ", @Q@V2[0].@F2))
 r := @Q@N1(struct{ @F5, @F6 int }{argInt(args, 0, 3), 4})
-emit(fmt.Sprint("anon2 ", r.@F7, " ", @Q@V3["k"].@F8))
+emit(sprint("anon2 ", r.@F7, " ", @Q@V3["k"].@F8))
 loc := struct {
 	@F1 int
 	in struct{ deep []string }
 }{@F1: 5}
 loc.in.deep = append(loc.in.deep, "z")
-emit(fmt.Sprint("anon3 ", loc.@F1, " ", loc.in.deep))
+emit(sprint("anon3 ", loc.@F1, " ", loc.in.deep))
 `,
 	})
 
@@ -531,11 +531,11 @@ var @V1 = [...]string{@C1: "a", @C3: "d"}
 		use: `
 var a @Q@T2
 var b @Q@T3
-emit(fmt.Sprint("consts ", @Q@C1, " ", @Q@C2, " ", @Q@C3, " ", @Q@C4, " ", @Q@C5, " ", @Q@C6, " ", len(a), " ", len(b)))
-emit(fmt.Sprint("consts2 ", @Q@C3.@M1(), " ", @Q@T1(argInt(args, 0, 1)).@M1(), " ", @Q@N1("cst"), " ", @Q@N1("cst!"), " ", @Q@N1(argStr(args, 1, "lit")), " ", len(@Q@V1), " ", @Q@V1[4]))
+emit(sprint("consts ", int(@Q@C1), " ", int(@Q@C2), " ", int(@Q@C3), " ", @Q@C4, " ", @Q@C5, " ", @Q@C6, " ", len(a), " ", len(b)))
+emit(sprint("consts2 ", @Q@C3.@M1(), " ", @Q@T1(argInt(args, 0, 1)).@M1(), " ", @Q@N1("cst"), " ", @Q@N1("cst!"), " ", @Q@N1(argStr(args, 1, "lit")), " ", len(@Q@V1), " ", @Q@V1[4]))
 const local = @Q@C4 + 2
 var arr [local]int
-emit(fmt.Sprint("consts3 ", len(arr)))
+emit(sprint("consts3 ", len(arr)))
 `,
 	})
 
@@ -562,6 +562,7 @@ emit("initorder " + @Q@N1() + " " + strconv.Itoa(@Q@V1+@Q@V2))
 
 	register("errors", featDef{
 		provNotMain: true,
+		reflects:    true, // fmt.Errorf("%w", &T1{}) hands T1 to fmt
 		prov: `
 type @T1 struct {
 	@F1 int
@@ -598,9 +599,9 @@ for n := argInt(args, 0, 0); n < argInt(args, 0, 0)+4; n++ {
 	case err == nil:
 		emit("errors nil")
 	case errors.As(err, &te):
-		emit(fmt.Sprint("errors as ", te.@F1, " ", errors.Is(err, @Q@V1), " ", err.Error()))
+		emit(sprint("errors as ", te.@F1, " ", errors.Is(err, @Q@V1), " ", err.Error()))
 	default:
-		emit(fmt.Sprint("errors other ", errors.Is(err, @Q@V1), " ", err))
+		emit(sprint("errors other ", errors.Is(err, @Q@V1), " ", err))
 	}
 }
 `,
@@ -654,7 +655,7 @@ func() {
 	defer func() {
 		r := recover()
 		t, ok := r.(@Q@T1)
-		emit(fmt.Sprint("panics2 ", ok, " ", t.@F1))
+		emit(sprint("panics2 ", ok, " ", t.@F1))
 	}()
 	panic(@Q@T1{@F1: "direct"})
 }()
@@ -703,7 +704,7 @@ func @N1(workers, n int) (int, int) {
 		provImports: []string{"sync"},
 		use: `
 a, b := @Q@N1(2+@P0%3, 10+argInt(args, 0, 0)%10)
-emit(fmt.Sprint("goroutines ", a, " ", b))
+emit(sprint("goroutines ", a, " ", b))
 done := make(chan struct{})
 var got []int
 go func() {
@@ -713,7 +714,7 @@ go func() {
 	}
 }()
 <-done
-emit(fmt.Sprint("goroutines2 ", got))
+emit(sprint("goroutines2 ", got))
 `,
 	})
 
@@ -753,7 +754,7 @@ func @N2(m @T2) int { return m.@m1() }
 f := @Q@N1(argStr(args, 1, "p"))
 emit("functypes " + f.@M1(@P0) + " " + f(1, "z"))
 m := @Q@T2{}.@M2("a", 1, 2).@M2("b").@M2("a", 3)
-emit(fmt.Sprint("functypes2 ", @Q@N2(m), " ", m["a"], " ", @Q@T3{f, @Q@N1("q")}.@M3(2)))
+emit(sprint("functypes2 ", @Q@N2(m), " ", m["a"], " ", @Q@T3{f, @Q@N1("q")}.@M3(2)))
 `,
 	})
 
@@ -786,12 +787,12 @@ func (t @T3) @M1() int { return t.@I2.@M1() + 1000 }
 `,
 		use: `
 a := @Q@N1(argInt(args, 0, 3))
-emit(fmt.Sprint("embediface ", a.@M1(), " ", a.@I1.@M1(), " ", a.@F1))
+emit(sprint("embediface ", a.@M1(), " ", a.@I1.@M1(), " ", a.@F1))
 b := @Q@T3{@Q@N2(4)}
 var i @Q@I1 = b
-emit(fmt.Sprint("embediface2 ", i.@M1(), " ", b.@I2.@M1()))
+emit(sprint("embediface2 ", i.@M1(), " ", b.@I2.@M1()))
 _, isI2 := i.(@Q@I2)
-emit(fmt.Sprint("embediface3 ", isI2))
+emit(sprint("embediface3 ", isI2))
 `,
 	})
 
@@ -822,7 +823,7 @@ func @N2() int {
 func (@T1 @T1) @M1() int { return @T1.@F1 * 2 }
 `,
 		use: `
-emit(fmt.Sprint("shadow ", @Q@N1(argInt(args, 0, 5)), " ", @Q@N2(), " ", @Q@T1{@F1: 4}.@M1()))
+emit(sprint("shadow ", @Q@N1(argInt(args, 0, 5)), " ", @Q@N2(), " ", @Q@T1{@F1: 4}.@M1()))
 `,
 	})
 
@@ -928,9 +929,9 @@ var l *@Q@T1[string]
 l = l.@M1("a").@M1("b").@M1(argStr(args, 0, "c"))
 s := ""
 l.@M2(func(v string) { s += v })
-emit(fmt.Sprint("recursive ", s, " ", @Q@N1(5, 2, 8, @P0, 1, 9)))
+emit(sprint("recursive ", s, " ", @Q@N1(5, 2, 8, @P0, 1, 9)))
 li := (&@Q@T1[int]{@F1: 1}).@M1(2)
-emit(fmt.Sprint("recursive2 ", li.@F1+li.@F2.@F1))
+emit(sprint("recursive2 ", li.@F1+li.@F2.@F1))
 `,
 	})
 
@@ -973,10 +974,10 @@ c := @Q@N1(argInt(args, 0, 4))
 c.@M2(4)
 c.@M2(argInt(args, 0, 4))
 v, ok := @Q@N2[int](c, 4+@P0)
-emit(fmt.Sprint("genericmethods ", len(c.@F2), " ", c.@F1, " ", c.@T1.@F1, " ", v, " ", ok))
+emit(sprint("genericmethods ", len(c.@F2), " ", c.@F1, " ", c.@T1.@F1, " ", v, " ", ok))
 var s @Q@T3
 s.@F1 = "k"
-emit(fmt.Sprint("genericmethods2 ", s.@M2("k"), " ", s.@M1()))
+emit(sprint("genericmethods2 ", s.@M2("k"), " ", s.@M1()))
 `,
 	})
 
@@ -1006,7 +1007,7 @@ func (t @T2) get() int { return t.value * 100 }
 `,
 		use: `
 u := @T2{@Q@N1(3), argInt(args, 0, 2), "user"}
-emit(fmt.Sprint("unexportedclash ", u.get(), " ", u.@M1(), " ", u.name, " ", u.value, " ", @Q@N2(1)))
+emit(sprint("unexportedclash ", u.get(), " ", u.@M1(), " ", u.name, " ", u.value, " ", @Q@N2(1)))
 `,
 	})
 
@@ -1028,7 +1029,241 @@ func @N1[T any](v T) struct {
 `,
 		use: `
 g := @Q@N1(argInt(args, 0, 1))
-emit(fmt.Sprint("genericanon ", g.@F1, " ", g.@F2))
+emit(sprint("genericanon ", g.@F1, " ", g.@F2))
+`,
+	})
+}
+
+func init() {
+	register("ldflags", featDef{
+		needs: []string{"ldflags"},
+		tags:  []string{"ldflags"},
+		ldX:   []string{"V1", "v2", "V3"},
+		prov: `
+var @V1 = "default-one"
+var @v2 string
+var @V3 = "unset"
+
+// not a link-time target: an ordinary package-level string next to them
+var @V4 = "ordinary value"
+
+func @N1() string { return @V1 + "|" + @v2 + "|" + @V3 + "|" + @V4 }
+`,
+		use: `
+emit("ldflags " + @Q@N1() + " " + strconv.Itoa(len(@Q@V1)))
+`,
+	})
+
+	register("linkname", featDef{
+		needs:       []string{"linkname"},
+		tags:        []string{"linkname"},
+		provNotMain: true,
+		needs2:      true,
+		crossOnly:   true,
+		prov: `
+type @T1 struct{ @F1 string }
+
+func @n1(x int) int { return x*3 + @P0 }
+
+func (r @T1) @m1() string { return "val:" + r.@F1 }
+
+func (r *@T1) @m2(extra string) string { r.@F1 += extra; return "ptr:" + r.@F1 }
+
+func (r @T1) @M3() string { return "exp:" + r.@F1 }
+
+var @v1 = []int{1, 2, @P1}
+
+// keep the symbols alive in the provider itself
+var @V9 = []any{@n1, @T1.@m1, (*@T1).@m2, @T1.@M3, &@v1}
+`,
+		useImports: []string{"_ unsafe"},
+		useDecl: `
+//go:linkname @n2 @PROVSYM.@n1
+func @n2(x int) int
+
+//go:linkname @n3 @PROVSYM.@T1.@m1
+func @n3(@Q@T1) string
+
+//go:linkname @n4 @PROVSYM.(*@T1).@m2
+func @n4(*@Q@T1, string) string
+
+//go:linkname @n5 @PROVSYM.@T1.@M3
+func @n5(@Q@T1) string
+
+//go:linkname @v2 @PROVSYM.@v1
+var @v2 []int
+`,
+		use: `
+r := @Q@T1{@F1: argStr(args, 1, "f")}
+emit(sprint("linkname ", @n2(argInt(args, 0, 2)), " ", @n3(r), " ", @n4(&r, "+x"), " ", @n5(r), " ", @v2, " ", len(@Q@V9)))
+`,
+	})
+
+	register("asm", featDef{
+		needs:       []string{"asm"},
+		tags:        []string{"asm"},
+		provNotMain: true,
+		prov: `
+// implemented in assembly
+func @N1(x, y int32) int32
+func @n2(x, y int32) int32
+func @n3(x, y int32) int32
+func @n4()
+func @n5(a *@T1) int64
+func @n6() int64
+
+var @v1 = [4]uint64{1, 2, 3, 4}
+
+// field names share prefixes on purpose
+type @T1 struct {
+	@f1b, @f1, @f1bc int64
+}
+
+func @N7(a, b int32) (int32, int32, uint64, int64, int64) {
+	@n4()
+	return @n2(a, b), @n3(b, a), @v1[0] + @v1[1], @n5(&@T1{@f1b: 5, @f1: 10, @f1bc: 20}), @n6()
+}
+`,
+		extraProv: map[string]string{
+			"asm_@MK_amd64.s": `#include "go_asm.h"
+#include "zqdef_@MK_amd64.h"
+
+// A comment with many·special∕asm·runes is fine.
+TEXT ·@N1(SB),$0-16
+	MOVL x+0(FP), BX
+	MOVL y+4(FP), BP
+	ADDL BP, BX
+	MOVL BX, ret+8(FP)
+	RET
+
+// by package path (or name where the path cannot be spelled)
+TEXT ·@n2(SB),$0-16
+	JMP @ASMPATH·@N1(SB)
+
+// unqualified
+TEXT ·@n3(SB),$0-16
+	JMP ·@N1(SB)
+
+TEXT ·@n4(SB),$0-0
+	addTo@MK($1@P0)
+	ADDL $34,·@v1+8(SB) // no space after the comma
+	RET
+
+TEXT ·@n5(SB), $0-16
+	MOVQ a+0(FP), R11
+	MOVQ @T1_@f1b(R11), AX
+	MOVQ @T1_@f1(R11), BX
+	ADDQ BX, AX
+	MOVQ @T1_@f1bc(R11), BX
+	ADDQ BX, AX
+	MOVQ AX, ret+8(FP)
+	RET
+
+TEXT ·@n6(SB), $0-8
+	MOVQ $@T1__size, AX
+	MOVQ AX, ret+0(FP)
+	RET
+`,
+			"zqdef_@MK_amd64.h": `#define addTo@MK(arg) \
+	ADDL arg, ·@v1+0(SB)
+`,
+		},
+		use: `
+a, b, c, d, e := @Q@N7(int32(argInt(args, 0, 3)), 4)
+emit(sprint("asm ", a, " ", b, " ", c, " ", d, " ", e, " ", @Q@N1(20, 22)))
+`,
+	})
+
+	register("tests", featDef{
+		needs:       []string{"test"},
+		tags:        []string{"tests"},
+		provNotMain: true,
+		needs2:      true,
+		prov: `
+type @T1 struct{ @f1 int }
+
+func @N1(n int) *@T1       { return &@T1{n} }
+func (t *@T1) @M1() int    { return t.@f1 * 2 }
+func (t *@T1) @m1() string { return strconv.Itoa(t.@f1 + @P0) }
+func @n2(a, b int) int     { return a*b + 1 }
+`,
+		extraProv: map[string]string{
+			"zq@MK_test.go": `package @PKGNAME
+
+import (
+	"fmt"
+	"os"
+	"testing"
+)
+
+var _ = os.Exit
+
+func Test@MKInternal(t *testing.T) {
+	v := @N1(4)
+	fmt.Println("zqout internal", v.@m1(), @n2(3, 4))
+	if v.@m1() == "" {
+		t.Fatal("empty")
+	}
+	t.Run("sub", func(t *testing.T) {
+		if @n2(1, 1) != 2 {
+			t.Error("bad")
+		}
+	})
+}
+
+func Test@MKFailing(t *testing.T) {
+	if @P1 >= 7 {
+		fmt.Println("zqout failing on purpose")
+		t.Fail()
+	}
+}
+
+func Test@MKSkipped(t *testing.T) {
+	if @P2 >= 5 {
+		t.Skip()
+	}
+}
+
+func Benchmark@MK(b *testing.B) {
+	for i := 0; i < b.N; i++ {
+		_ = @n2(i, i)
+	}
+}
+
+//@TESTMAIN_BEGIN
+func TestMain(m *testing.M) {
+	fmt.Println("zqout testmain before")
+	code := m.Run()
+	fmt.Println("zqout testmain after", code)
+	os.Exit(code)
+}
+//@TESTMAIN_END
+`,
+			"zqx@MK_test.go": `package @PKGNAME_test
+
+import (
+	"fmt"
+	"testing"
+
+	"@PKGPATH"
+)
+
+func Test@MKExternal(t *testing.T) {
+	v := @PKGNAME.@N1(21)
+	fmt.Println("zqout external", v.@M1())
+	if v.@M1() != 42 {
+		t.Errorf("got %d", v.@M1())
+	}
+}
+
+func Example@MK() {
+	fmt.Println(@PKGNAME.@N1(2).@M1())
+	// Output: 4
+}
+`,
+		},
+		use: `
+emit(sprint("tests ", @Q@N1(argInt(args, 0, 5)).@M1()))
 `,
 	})
 }
